@@ -157,6 +157,33 @@ func TestC08(t *testing.T) {
 					"x = "+strings.Repeat("{k: ", d)+"1"+strings.Repeat("}", d)+";",
 				)
 			}
+			// sizes of single tokens and of the whole text: nothing in the grammar bounds them
+			for _, n := range []int{15, 16, 17, 18, 19, 20, 21, 39, 40, 100, 308, 309, 310, 400, 1100, 5000} {
+				for _, d := range []string{"9", "1", "৯", "১"} {
+					digits := strings.Repeat(d, n)
+					cases = append(cases, bn.KwPrint+" "+digits+";", bn.KwPrint+" "+digits+"."+digits+";", bn.KwPrint+" 0."+digits+";", "x = ["+digits+", "+digits+".5];")
+				}
+			}
+			for _, lit := range []string{"9223372036854775807", "9223372036854775808", "18446744073709551615", "18446744073709551616", "4294967296", "2147483648", "৯২২৩৩৭২০৩৬৮৫৪৭৭৫৮০৮", "9007199254740993"} {
+				cases = append(cases, bn.KwPrint+" "+lit+";", "a["+lit+"];", bn.KwPrint+" -"+lit+";", bn.KwPrint+" "+lit+".0;")
+			}
+			for _, n := range []int{1, 2, 63, 64, 65, 255, 256, 257, 1023, 1024, 4096, 65535, 65536, 70000} {
+				cases = append(cases, bn.KwVar+" "+strings.Repeat("a", n)+" = 1;", bn.KwVar+" "+strings.Repeat("ক", n)+" = 1;", bn.KwVar+" _"+strings.Repeat("9", n)+" = 1;",
+					bn.KwPrint+" \""+strings.Repeat("s", n)+"\";", bn.KwPrint+" \""+strings.Repeat("ক", n)+"\";", "o."+strings.Repeat("k", n)+" = {"+strings.Repeat("k", n)+": 1};",
+					"// "+strings.Repeat("c", n)+"\n"+bn.KwPrint+" 1;", "/* "+strings.Repeat("c", n)+" */ "+bn.KwPrint+" 1;")
+			}
+			for _, n := range []int{1000, 20000} {
+				cases = append(cases, strings.Repeat(bn.KwPrint+" 1;\n", n), strings.Repeat(bn.KwPrint+" 1; ", n), strings.Repeat(";", n), strings.Repeat("{ } ", n),
+					"x = {"+strings.Repeat("k: 1, ", n)+"z: 2};", bn.KwVar+" "+strings.Repeat("v, ", n)+"w;", strings.Repeat("\n", n)+bn.KwPrint+" 1", strings.Repeat(" ", n)+bn.KwPrint+" 1;"+strings.Repeat("\t", n))
+			}
+			// characters that may look like part of a word but are not: inside, before and after identifiers, numbers and keywords
+			for _, cp := range []string{"\u200c", "\u200d", "\u00ad", "\ufeff", "\u2060", "\u00a0", "\u200b", "\u2028", "\u0085", "\u00b7", "\u0301", "\u09cd", "\u09be", "\u0981", "\u09e6", "\u0966", "\u00b2", "\u2160", "\U0001d7d8", "\U0001f600", "\u0964", "$", "@", "'", "`", "\\", "?"} {
+				for _, w := range []string{"a%sb", "ক%sখ", "_%s", "%sa", "a%s", "1%s2", "1%s", "%s1", "a%s1", "ক%s১"} {
+					word := fmt.Sprintf(w, cp)
+					cases = append(cases, bn.KwVar+" "+word+" = 1;", bn.KwPrint+" "+word+";", bn.KwPrint+" "+word+" + 1;")
+				}
+				cases = append(cases, bn.KwPrint+cp+" 1;", bn.KwPrint+" 1"+cp+";", bn.KwPrint+" 1;"+cp, cp+bn.KwPrint+" 1;", bn.KwPrint[:len(bn.KwPrint)-3]+cp+bn.KwPrint[len(bn.KwPrint)-3:]+" 1;")
+			}
 			for _, cs := range cases {
 				c.c08Text(s, "boundaries", cs, false)
 			}
